@@ -13,7 +13,7 @@ def T(module, *names, partial=False):
           "Kanzi.Properties.C03_facts": "Kanzi.C03", "Kanzi.Properties.C18_facts": "Kanzi.C18",
           "Kanzi.Properties.C01": "Kanzi.C01", "Kanzi.Properties.C19_cli": "Kanzi.C19",
           "Kanzi.Properties.C05_jobs": "Kanzi.C05", "Kanzi.Properties.C12_ans0": "Kanzi.C12",
-          "Kanzi.Properties.C01_none": "Kanzi.C01none"}[module]
+          "Kanzi.Properties.C01_none": "Kanzi.C01none", "Kanzi.Properties.C03_bound": "Kanzi.C03"}[module]
     return [{"module": module, "name": n if n.startswith("Kanzi.") else ns + "." + n, "partial": partial or n.endswith("_partial")} for n in names]
 
 
@@ -95,9 +95,10 @@ PROPS["C03"] = {
     "technique": "PARTIAL Lean proof: recover discipline decided over a fact base regenerated from /repo on every run + protocol termination theorems for every N; codec internals searched by structure-aware mutation in child processes",
     "facts": ["GoSites"],
     "theorems": T(M03F, "C03_every_panic_site_recovered", "C03_facts_nonvacuous")
-                + T(M07, "C07_dec_progress", "C07_dec_measure_mono", "C07_dec_measure_init", "C07_dec_cancel_stable"),
-    "streams": [FUZZDEC],
-    "level_text": "PARTIAL PROOF. Proved: (1) every `go` statement of the library spawns a function with a deferred recover and the caller-goroutine entry points recover (theorem by `decide` over Generated/GoSites.lean, re-extracted from /repo's AST on every run, so a new unrecovered goroutine breaks the proof); (2) the decode hand-off protocol has no deadlock or endless wait for any number of tasks and any failure placement (C07_dec_progress etc.). NOT proved: termination and memory safety inside each codec's Inverse/Read on attacker-controlled data; those are only searched (fuzzdec: structure-aware mutations - re-checksummed headers, forged lengths, forged codec headers, splices, truncations - decoded in child processes with a watchdog).",
+                + T(M07, "C07_dec_progress", "C07_dec_measure_mono", "C07_dec_measure_init", "C07_dec_cancel_stable")
+                + T("Kanzi.Properties.C03_bound", "C03_frame_bound", "C03_frame_bound_linear") + T(MJOBS, "C05_bwt_chunks_covered"),
+    "streams": [IMAGE, JOBS, FUZZDEC],
+    "level_text": "PARTIAL PROOF. Proved: (1) every `go` statement of the library spawns a function with a deferred recover and the caller-goroutine entry points recover (theorem by `decide` over Generated/GoSites.lean, re-extracted from /repo's AST on every run, so a new unrecovered goroutine breaks the proof); (2) the decode hand-off protocol has no deadlock or endless wait for any number of tasks and any failure placement (C07_dec_progress etc.); (3) a task never allocates for or reads a frame longer than a bound that depends on the block size only (C03_frame_bound over the frame parser that the image stream compares with the real Reader on damaged and cut streams). NOT proved: termination and memory safety inside each codec's Inverse/Read on attacker-controlled data; those are only searched (fuzzdec: structure-aware mutations - re-checksummed headers, forged lengths, forged codec headers, splices, truncations - decoded in child processes with a watchdog).",
     "level_note": BASE_NOTE + "The syntactic fact extractor harness/cmd/kv/facts_ast.go (go/parser; one level of callee resolution; self-tested). Codec internals are outside the model.",
     "assumptions": ["a deferred recover at the top of every spawned function converts every panic of that goroutine into a task error", "codec Inverse/Read loops terminate (searched, not proved)"],
 }
